@@ -169,9 +169,13 @@ impl LookupClass<&StringName, Class> for Context {
     /// Substitutes all generics in the class when found.
     /// Also constructs class complete with all fields and functions from parents.
     fn class(&self, class: &StringName, pos: Position) -> TypeResult<Class> {
-        // if there are multiple classes with the same name, first defined takes precedence
+        // if there are multiple classes with the same name, those defined by the user take
+        // precedence over built-in ones, and of those the first defined
         let same_name = self.classes.iter().filter(|c| c.name.name == class.name);
-        let first = same_name.min_by_key(|c| (c.pos.start.line, c.pos.start.pos, c.name.generics.len()));
+        let first = same_name.min_by_key(|c| {
+            let pos = c.pos.start;
+            (c.is_py_type, pos.line, pos.pos, c.name.generics.len())
+        });
 
         if let Some(generic_class) = first {
             let mut generics = HashMap::new();
